@@ -130,14 +130,26 @@ impl ArgPatternArm {
     }
 
     fn render_success_arm(&self, global_guards: &[TokenStream]) -> proc_macro2::TokenStream {
-        let mut concatenated_guards = Vec::from_iter(global_guards);
-
         let local_guards = self
             .arg_matchers
             .iter()
             .filter_map(|m| m.render_guard())
             .collect::<Vec<_>>();
 
+        // The user's guard is spliced in front of the `eq!`/`ne!` comparisons with `&&`:
+        // it has to be parenthesized, or a top-level `||` inside it would swallow them.
+        let global_guards = global_guards
+            .iter()
+            .map(|guard| {
+                if local_guards.is_empty() {
+                    quote! { #guard }
+                } else {
+                    quote! { (#guard) }
+                }
+            })
+            .collect::<Vec<_>>();
+
+        let mut concatenated_guards = Vec::from_iter(&global_guards);
         concatenated_guards.extend(&local_guards);
 
         let if_guard = if !concatenated_guards.is_empty() {
